@@ -1,2 +1,53 @@
-(* Props/C05.v *)
-From BC Require Import Store.Engine.
+(* Props/C05.v — C05: compaction never changes what any key reads, now or after a restart. *)
+From BC Require Import Store.Engine Store.Log Store.Inv Store.Refine Store.Merge Store.Theorems Store.Pinned.
+Open Scope N_scope.
+
+(* 1. A merge pass — for every configuration [c], hence every threshold setting and every subset
+      [select] can produce, and every iteration order that visits each entry of a selected file once —
+      succeeds, keeps the invariant and leaves every key reading exactly as before. *)
+Theorem C05_merge_preserves : forall c s ord, Inv s -> merge_ready c s ord ->
+  exists s' t, merge c s ord = ROk (s', tt, t) /\ Inv s' /\ (forall k, abs s' k = abs s k) /\ s_clock s' = s_clock s.
+Proof. exact merge_ok. Qed.
+Print Assumptions C05_merge_preserves.
+
+(* 2. ... and also after any number of subsequent close/reopen cycles: a deleted key stays deleted,
+      no key reverts to an older value. *)
+Theorem C05_merge_then_reopen : forall c s ord n, Inv s -> merge_ready c s ord ->
+  exists s' t, merge c s ord = ROk (s', tt, t) /\ forall k, abs (reopens s' n) k = abs s k.
+Proof.
+  intros c s ord n HI Hr. destruct (merge_ok c s ord HI Hr) as (s' & t & Hm & HI' & Habs & _).
+  exists s', t. split; [exact Hm|]. intros k. rewrite (proj2 (reopen_preserves n s' HI') k). apply Habs.
+Qed.
+Print Assumptions C05_merge_then_reopen.
+
+(* 3. The selection the code computes is closed downwards over the files that hold records: that is
+      what makes dropping tombstones safe. *)
+Theorem C05_selection_closed : forall c s, Inv s ->
+  exists sel0 bound, select c s = ROk sel0 /\
+    forall g, mem g sel0 = hasrow (s_stats s) g && match bound with Some b => g <=? b | None => false end.
+Proof. exact select_ok. Qed.
+Print Assumptions C05_selection_closed.
+
+(* The pinned selection violated the property (D2): file 0 holds k, a, b; file 1 holds tombstones of
+   k, x, y, z; thresholds select {1} only; the merge drops the tombstone of k and after a restart
+   k reads its old value again. *)
+Definition d2_cfg := mkCfg 60 false 1 1 50 0.
+Definition d2_ops := [OSet [107] []; OSet [97] []; OSet [98] []; ODel [107]; ODel [120]; ODel [121]; ODel [122]].
+Theorem C05_pinned_refuted :
+  let s := fst (fst (run d2_cfg init d2_ops)) in
+  abs s [107] = None /\
+  match merge_pinned d2_cfg s [] with
+  | ROk (s', _, _) => abs (reopens s' 1) [107] = Some []
+  | _ => False
+  end.
+Proof. vm_compute. split; reflexivity. Qed.
+Print Assumptions C05_pinned_refuted.
+
+(* the same history with the repaired selection *)
+Example C05_fixed_example :
+  let s := fst (fst (run d2_cfg init d2_ops)) in
+  match merge d2_cfg s [[98]; [97]] with
+  | ROk (s', _, _) => abs (reopens s' 1) [107] = None /\ abs (reopens s' 1) [97] = Some []
+  | _ => False
+  end.
+Proof. vm_compute. split; reflexivity. Qed.
